@@ -1920,6 +1920,11 @@ def run(tier):
               'boundary verbatim: the pickle writer and reader agree on '
               'tags, lengths (in bytes), field order and codec (shared with '
               'C12.R1)', sub12)
+    from .. import depthrec
+    chk.guard(depthrec.report, chk, prog, 'C15.R11',
+              'no function of the tree core that applies a proposal recurses over the nesting depth (directly, through helpers, generators, tuple comparison, deepcopy or the generic pickler)',
+              [('nodes', 'substitute'), ('nodes', 'Node.__eq__'), ('nodes', 'Node.__hash__')],
+              'proposals that lie inside or behind a deeply nested term cannot be applied (RecursionError)')
     extra = None
     if tier == 'thorough':
         from .. import selftest
